@@ -457,6 +457,12 @@ def ins_lattice(seed, quick, resume_subsets=True):
         assigns.append({"model": "G2cut", "draw_constant": False, "reparameterisation": None})
         assigns.append({"model": "G2hole", "draw_iid_live": False, "strict_threshold": True})
         assigns.append({"min_remove": 5})
+        # combinations that leave fewer than min_samples above the threshold (training-set clause of C17)
+        assigns.append({"draw_iid_live": False, "n_update": 45, "min_samples": 20})
+        assigns.append({"draw_iid_live": True, "n_update": 45, "min_samples": 20})
+        assigns.append({"draw_iid_live": False, "min_remove": 40, "min_samples": 30})
+        assigns.append({"draw_iid_live": False, "max_samples": 70, "min_samples": 30})
+        assigns.append({"draw_iid_live": True, "max_samples": 70, "min_samples": 30, "draw_constant": True})
         assigns.append({"max_samples": 120})
     else:
         assigns = []
